@@ -3,6 +3,7 @@ import OrsoVerif.Model.DictSession
 import OrsoVerif.Model.DictViews
 import OrsoVerif.Model.DictSchema
 import OrsoVerif.Model.DictJson
+import OrsoVerif.Model.DictIter
 /-! Driver glue for C02.  The driver runs the *assembled code* (`Model/DictRowCode.lean`, built from the
 statements extracted from the working tree), not the specification functions. -/
 namespace Drv.C02
@@ -35,9 +36,21 @@ def asNat : PyVal → Option Nat
   | .int i => if i < 0 then none else some i.toNat
   | _ => none
 
+/-- how the caller holds the sequence it gives to the constructor -/
+def asKind : String → Option DictIter.Kind
+  | "container" => some .container
+  | "oneshot" => some .oneShot
+  | "reader" => some .reader
+  | _ => none
+
 def asOp : PyVal → Option (Op PyVal)
   | .list [.str "ctx"] => some .ctx
   | .list [.str "frame", .list ds] => (asDicts ds).map .frame
+  | .list [.str "frame", .list ds, .str kind] => do
+    -- the records the source expression of the working tree yields for this kind of object
+    let ds ← asDicts ds
+    let k ← asKind kind
+    pure (.frame ((DictIter.consumed frameSourceSegs k ds).getD []))
   | .list [.str "rows", .list fields, .list rows] => do
     let f ← asStrs fields
     let r ← asRows rows
@@ -231,6 +244,18 @@ def handle (op : String) (args : List PyVal) : Option (List PyVal) :=
       match frameOfDictsCode .none .str ds with
       | none => pure [errV]
       | some (names, rows) => pure [.list (names.map .str), .list (rows.map .list)]
+  | "frame", [.list ds, .str kind] => do
+    let ds ← asDicts ds
+    let k ← asKind kind
+    match ds with
+    | [] => pure [.str "StopIteration"]
+    | _ :: _ =>
+      match DictIter.frameOfDictsIter .none .str k ds with
+      | none => pure [errV]
+      | some (names, rows) => pure [.list (names.map .str), .list (rows.map .list)]
+  | "sized", [.int packed] =>
+    -- does `append` store a record whose values pack to this many bytes (the guard of as_bytes, reached through nbytes)?
+    pure [.str (if appendSizesRowFirst && recordRefused packed then "refused" else "stored")]
   | "append", [.list fields, .list rows, .dict d, .bool isSub] => do
     let fields ← asStrs fields
     let rows ← asRows rows
